@@ -199,7 +199,8 @@ _WORLD_EXTRA = {
 }
 _WORLD_EXTRA_PROFILE = {      # further profiles of harness/world.c run under the same property: [(quick, thorough)], each (profile, modules, deviations, depth)
     'C03': [(('C03E', 2, 0, 3), ('C03E', 2, 0, 5))],      # signal / path / pid events
-    'C02': [(('C02O', 1, 0, 7), ('C02O', 2, 0, 7))],      # one-shot subscriptions: used up by the first message sent under them, wherever it is handed over
+    'C02': [(('C02O', 1, 0, 7), ('C02O', 2, 0, 7)),
+            (('C02D', 1, 0, 6), ('C02D', 2, 0, 6))],      # DUP topics / AUTOFREE user data / replaced subscriptions with messages in flight: what the recipient is handed (topic, user pointer)      # one-shot subscriptions: used up by the first message sent under them, wherever it is handed over
     'C07': [(('C07O', 1, 0, 8), ('C07O', 2, 0, 8)),
             (('C07D', 1, 1, 4), ('C07D', 2, 2, 5))],      # context calls (also a second m_ctx_register) armed inside callbacks of plain and DENY_CTX modules      # context registered with NAME_DUP / auto-free name and user data
     'C19': [(('C19T', 1, 0, 6), ('C19T', 2, 0, 7))],      # tick period changed while the loop runs: never more often than the period in force
@@ -275,9 +276,9 @@ def _c04task(scn, budget, dl):
     return ['--scenario', scn, '--budget', budget, '--deadline', dl, '--workers', 4, '--prune', 1]
 
 
-CHECKS['C04']['parts'].append(schedx_part('task', 'c04_task', ALL_LIBS, quick=[_c04task(s, 2, 100) for s in range(6)], thorough=[_c04task(s, 3, 600) for s in range(6)]))
+CHECKS['C04']['parts'].append(schedx_part('task', 'c04_task', ALL_LIBS, quick=[_c04task(s, 2, 100) for s in (0, 1, 2, 3, 4, 5, 7, 8)], thorough=[_c04task(s, 3, 600) for s in (0, 1, 2, 3, 4, 5, 7, 8)]))
 # the same scenarios under TSan, as part of C14 (task sources running concurrently with their context); pause/resume with a task in flight is excluded (it restarts the task: unspecified)
 CHECKS['C20']['parts'].append(schedx_part('task-fd', 'c04_task', ALL_LIBS, quick=[_c04task(6, 2, 100)], thorough=[_c04task(6, 3, 600)]))
 CHECKS['C20']['bounds']['quick'] += '; task completion descriptors: task delivered, user opens descriptors, loop stop and context release under every interleaving (budget 2)'
-CHECKS['C14']['parts'].append(schedx_part('task-tsan', 'c04_task', ALL_LIBS, variant='tsan', quick=[_c04task(s, 2, 100) for s in (0, 1, 2, 4, 5)], thorough=[_c04task(s, 3, 600) for s in (0, 1, 2, 4, 5)]))
+CHECKS['C14']['parts'].append(schedx_part('task-tsan', 'c04_task', ALL_LIBS, variant='tsan', quick=[_c04task(s, 2, 100) for s in (0, 1, 2, 4, 5, 7, 8)], thorough=[_c04task(s, 3, 600) for s in (0, 1, 2, 4, 5, 7, 8)]))
 CHECKS['C04']['bounds']['quick'] += '; task in flight: 6 scenarios (deliver, stop, deregister, pause/resume, quit, stop+restart while the task body runs), every interleaving with the pool worker within 2 preemptions'
